@@ -155,6 +155,8 @@ pub enum Shape {
     TreeAtThreshold,
     /// never allocated
     Unallocated,
+    /// one bin holding a tree of 24..60 colliding keys (lookup cost separates a tree from a list)
+    BigTree,
 }
 
 pub const ALL_SHAPES: [Shape; 8] = [
@@ -282,7 +284,7 @@ pub fn make_shape(rng: &mut Rng, shape: Shape, allowed: &[HashKind]) -> ShapeOut
                 fresh: (n..n + 12).collect(),
             }
         }
-        Shape::Tree | Shape::TreeShrunk | Shape::AlmostTree | Shape::TreeAtThreshold => {
+        Shape::Tree | Shape::TreeShrunk | Shape::AlmostTree | Shape::TreeAtThreshold | Shape::BigTree => {
             // colliding keys: multiples of 64 collide in a 64-bin table under Identity and split
             // on later resizes; Const/SameBin collide for ever
             let hash = if allowed.is_empty() {
@@ -291,6 +293,7 @@ pub fn make_shape(rng: &mut Rng, shape: Shape, allowed: &[HashKind]) -> ShapeOut
                 *rng.pick(allowed)
             };
             let mult: u32 = match hash {
+                HashKind::Identity if shape == Shape::BigTree => 256,
                 HashKind::Identity => 64,
                 HashKind::Mod(m) => m.max(1),
                 _ => 1,
@@ -298,6 +301,7 @@ pub fn make_shape(rng: &mut Rng, shape: Shape, allowed: &[HashKind]) -> ShapeOut
             let count = match shape {
                 Shape::AlmostTree => 7 + rng.below(2) as u32,
                 Shape::TreeShrunk => 9 + rng.below(2) as u32,
+                Shape::BigTree => 24 + rng.below(37) as u32,
                 _ => 9 + rng.below(6) as u32,
             };
             let mut prepop: Vec<u32> = (0..count).map(|i| i * mult).collect();
@@ -315,7 +319,7 @@ pub fn make_shape(rng: &mut Rng, shape: Shape, allowed: &[HashKind]) -> ShapeOut
                 }
             }
             let mut fresh: Vec<u32> = (count..count + 8).map(|i| i * mult).collect();
-            let mut capacity = 42; // 64 bins
+            let mut capacity = if shape == Shape::BigTree { 120 } else { 42 }; // 256 / 64 bins
             if shape == Shape::TreeAtThreshold {
                 // fill other bins up to one below the threshold (48) of a 64-bin table
                 let have = prepop.len() as u32;
